@@ -99,6 +99,7 @@ NAMES = [
     "99999999999999999999.A.1.0.dsdl", "A.99999999999999999999.0.dsdl", "A B.1.0.dsdl", "a-b.1.0.dsdl", "9A.1.0.dsdl", "uint8.1.0.dsdl", "K.1.0.dsdl", "A.1.0.DSDL", "A.1.0.Dsdl", "A.1.0.dsdl.bak",
     "A.1.0..dsdl", "A..0.dsdl", "A.1..dsdl", "_.1.0.dsdl", "__.1.0.dsdl", "A.01.0.dsdl", "A.1.00.dsdl", "A.001.000.dsdl", "006200.A.1.0.dsdl", "A.1.0.uavcan.dsdl", ".A.1.0.dsdl", "6143.A.1.0.dsdl",
     "Caf\u00e9.1.0.dsdl", "Speed\u0661.1.0.dsdl", "A\u00b2.1.0.dsdl", "x\u212a.1.0.dsdl", "Stra\u00dfe.1.0.dsdl", "T\u0435mp.1.0.dsdl", "A\uff11.1.0.dsdl", "A\n.1.0.dsdl", "A\u2028.1.0.dsdl",
+    "A.1\n.0.dsdl", "A.1.0\n.dsdl", "6200\n.A.1.0.dsdl", "A.\n1.0.dsdl", "A.1.0\r.dsdl", "A.1\t.0.dsdl", "A.1.0\n\n.dsdl", "6200 .A.1.0.dsdl", "A.1.0\u2028.dsdl", "A.1\x0b.0.dsdl",
     "0.A.1.0.dsdl", "A.1.0.dsdl ", "A.1.0. dsdl", "A.1.0.dsdl\n", "A\t.1.0.dsdl", "A.1.0x.dsdl", "A.1.0L.dsdl", "A.1.².dsdl", "A.௧.0.dsdl", "A.1.0.UAVCAN", "6200.6200.A.1.dsdl", "A.1.0.dsdl.dsdl",
 ]
 
